@@ -6,6 +6,7 @@ import (
 	"github.com/zitadel/saml/pkg/provider/serviceprovider"
 	"github.com/zitadel/saml/pkg/provider/xml"
 	"github.com/zitadel/saml/pkg/provider/xml/md"
+	"github.com/zitadel/saml/pkg/provider/xml/samlp"
 )
 
 // Registration API (C09), decompression bound (C14), codec (C18), issuer
@@ -52,9 +53,12 @@ func HarnessRegistration() {
 	}
 }
 
-// HarnessC14: a DEFLATE payload whose inflated size is arbitrary (the
+// HarnessC14: a compressed payload whose inflated size is arbitrary (the
 // compressed size does not bound it) never makes the IdP materialise more than
-// 32 MiB, and an oversized request is not accepted.
+// 32 MiB, and an oversized request is not accepted. The payload is padding
+// only, or a complete conformant request followed by a padding comment (what a
+// truncating reader would still accept); it is framed as a raw DEFLATE stream
+// or wrapped as zlib / gzip (what a lenient decoder might fall back to).
 func HarnessC14() {
 	st := &vrtStore{noFaults: true}
 	st.respCert, st.respKey = vrtIdPKeyPair("idpkey")
@@ -64,10 +68,43 @@ func HarnessC14() {
 	vrtNominalSigAlg = true
 	p := vrtNewProviderWith(st, false)
 	n := vrtIntRange("inflated.length", 0, 1<<40)
-	payload := vrtRepeat("A", n)
-	encoded := vrtB64(vrtDeflate(payload))
-	var rb *vrtReq
+	pad := vrtRepeat("A", n)
 	route := vrtChoice("route", 3)
+	payload := pad
+	padded := vrtChoice("payload.shape", 2) == 1
+	if padded {
+		sp, doc, _ := vrtConformantSPn(false, 0)
+		vrtAssume(!vrtXSTrue(doc.SPSSODescriptor.AuthnRequestsSigned))
+		st.sp = sp
+		wire := ""
+		if route == 2 {
+			lr := &samlp.LogoutRequestType{Id: vrtStr("logout.Id"), Version: "2.0"}
+			vrtAssume(lr.Id != "")
+			lr.Issuer = vrtIssuerOf(string(doc.EntityID))
+			lr.NameID = vrtIssuerOf(vrtStr("logout.NameID"))
+			lr.IssueInstant = vrtTimestamp("logout.issueInstant", DefaultTimeFormat)
+			okI, _ := vrtTimeParse(DefaultTimeFormat, lr.IssueInstant)
+			vrtAssume(okI)
+			wire = vrtWireXML(lr)
+		} else {
+			a := &samlp.AuthnRequestType{Id: vrtStr("authn.Id"), Version: "2.0"}
+			vrtAssume(a.Id != "")
+			a.Issuer = vrtIssuerOf(string(doc.EntityID))
+			wire = vrtWireXML(a)
+		}
+		payload = wire + "<!--" + pad + "-->"
+	}
+	var stream string
+	switch vrtChoice("payload.framing", 3) {
+	case 0:
+		stream = vrtDeflate(payload)
+	case 1:
+		stream = vrtZlib(payload)
+	default:
+		stream = vrtGzip(payload)
+	}
+	encoded := vrtB64(stream)
+	var rb *vrtReq
 	switch route {
 	case 0: // SSO, Redirect binding (query)
 		rb = vrtNewRequest("req", "GET", vrtSSOPath)
@@ -84,6 +121,7 @@ func HarnessC14() {
 		vrtReqParam(rb, "SAMLRequest", false, "", true, encoded)
 		vrtReqParam(rb, "SAMLEncoding", false, "", true, xml.EncodingDeflate)
 	}
+	vrtAssume(!vrtBool("req.parsefail"))
 	vrtAllocStart()
 	rp, panicked := vrtServe(p, rb)
 	if panicked {
@@ -95,7 +133,18 @@ func HarnessC14() {
 		vrtCover("C14.inflated")
 	}
 	vrtAssert("C14.materialised-bytes-bounded", vrtMaterialisedWithin(vrtInflateBound))
-	vrtAssert("C14.oversized-request-not-accepted", st.count("CreateAuthRequest") == 0 || n <= vrtInflateBound)
+	accepted := st.count("CreateAuthRequest") > 0
+	if route == 2 {
+		d := vrtDecodeLogoutResponse(rp)
+		accepted = d.decoded && d.resp.Status.StatusCode.Value == StatusCodeSuccess
+	}
+	if accepted {
+		vrtOutcome("accepted")
+		if padded {
+			vrtCover("C14.padded-request-accepted-when-small")
+		}
+	}
+	vrtAssert("C14.oversized-request-not-accepted", !accepted || n <= vrtInflateBound)
 }
 
 // HarnessC18: the codec functions.
